@@ -1,7 +1,71 @@
-(* C01 — pipeline placeholder; replaced by the real statements below *)
-From Gdsl.Model Require Import Base NodeOps.
-From Gdsl.Proofs Require Import NodeLemmas.
+(* C01 — Directed edges stay mirrored between source and target.
+   Statements only; each is closed by a lemma of coq/proofs and followed by Print Assumptions.
+   Model: coq/model/NodeOps.v (step_d/run_d); vocabulary: coq/model/Spec.v. *)
+From Gdsl.Model Require Import Spec.
+From Gdsl.Proofs Require Import NodeD Glue.
 
-Theorem c01_to_app : forall (E : Type) v (l1 l2 : list (nat * E)), to_ v (l1 ++ l2) = to_ v l1 ++ to_ v l2.
-Proof. exact to_app. Qed.
-Print Assumptions c01_to_app.
+(* After ANY history of new/connect/try_connect/disconnect/isolate calls with pairwise distinct keys
+   (failing calls, self-loops, parallel edges, repeated disconnect/isolate included) no call panicked and
+   the heap satisfies Inv = Mirror /\ Wf /\ KeysInj. *)
+Theorem c01_history_invariant :
+  forall (K V E : Type) (keqb : K -> K -> bool), KeqbSpec keqb ->
+  forall ops : list (op K V E), KeysFresh ops ->
+    Inv (fst (run_d keqb ops)) /\ NoPanic (snd (run_d keqb ops)).
+Proof. exact run_d_inv. Qed.
+Print Assumptions c01_history_invariant.
+
+(* ... and after every prefix of it. *)
+Theorem c01_every_prefix :
+  forall (K V E : Type) (keqb : K -> K -> bool), KeqbSpec keqb ->
+  forall a b : list (op K V E), KeysFresh (a ++ b) ->
+    Inv (fst (run_d keqb a)) /\ NoPanic (snd (run_d keqb a)).
+Proof. exact run_d_prefix_inv. Qed.
+Print Assumptions c01_every_prefix.
+
+(* Mirror spelled out: for every pair (u,v) the values of the edges u reports towards v are, with
+   multiplicity and in the same relative order, the values of the edges v reports from u. *)
+Theorem c01_edges_mirrored :
+  forall (K V E : Type) (keqb : K -> K -> bool), KeqbSpec keqb ->
+  forall ops : list (op K V E), KeysFresh ops -> forall u v : nat,
+    map snd (filter (fun p => Nat.eqb (fst p) v) (outs (fst (run_d keqb ops)) u)) =
+    map snd (filter (fun p => Nat.eqb (fst p) u) (ins (fst (run_d keqb ops)) v)).
+Proof. exact run_d_mirror. Qed.
+Print Assumptions c01_edges_mirrored.
+
+(* degrees and root/leaf predicates of both endpoints describe one edge set *)
+Theorem c01_degree_facts :
+  forall (K V E : Type) (h : heap K V E), Inv h -> forall u v : nat,
+    length (to_ v (outs h u)) = length (to_ u (ins h v)) /\
+    (is_root h v = true <-> (forall u0 : nat, to_ v (outs h u0) = [])) /\
+    (is_leaf h u = true <-> (forall v0 : nat, to_ u (ins h v0) = [])).
+Proof. exact degree_facts. Qed.
+Print Assumptions c01_degree_facts.
+
+(* neighbour lookups: u.is_connected(key v)  <->  u lists an edge to v  <->  v.find_inbound(key u) is Some *)
+Theorem c01_is_connected :
+  forall (K V E : Type) (keqb : K -> K -> bool), KeqbSpec keqb ->
+  forall (h : heap K V E) (u v : nat) (kv : K), Inv h -> u < size h -> keyof h v = Some kv ->
+    (is_connected_d keqb h u kv = true <-> exists e : E, In (v, e) (outs h u)).
+Proof. exact is_connected_d_spec. Qed.
+Print Assumptions c01_is_connected.
+
+Theorem c01_lookup_both_ends :
+  forall (K V E : Type) (keqb : K -> K -> bool), KeqbSpec keqb ->
+  forall (h : heap K V E) (u v : nat) (ku kv : K), Inv h -> keyof h u = Some ku -> keyof h v = Some kv ->
+    (is_connected_d keqb h u kv = true <-> find_inbound keqb h v ku <> None).
+Proof. exact lookup_facts. Qed.
+Print Assumptions c01_lookup_both_ends.
+
+(* non-vacuity: a concrete history with distinct keys, a self-loop, parallel edges, a failing call,
+   a disconnect and an isolate; its final state is non-trivial *)
+Example c01_nonvacuous :
+  let ops : list (op nat nat nat) :=
+    [ONew 5 0; ONew 3 0; ONew 9 0; OConnect 0 1 10; OConnect 0 1 11; OConnect 1 1 12; OConnect 2 0 13;
+     OTryConnect 0 1 14; ODisconnect 0 3; ODisconnect 0 7; OIsolate 2; OConnect 1 0 15] in
+  NoDup (new_keys ops) /\
+  outs (fst (run_d Nat.eqb ops)) 0 = [(1, 11)] /\ ins (fst (run_d Nat.eqb ops)) 1 = [(0, 11); (1, 12)] /\
+  snd (run_d Nat.eqb ops) = [OkU; OkU; OkU; OkU; OkU; OkU; OkU; ErrExists; OkE 10; ErrNotFound; OkU; OkU].
+Proof.
+  cbv zeta. split; [|vm_compute; auto].
+  repeat constructor; cbn; intuition congruence.
+Qed.
